@@ -26,7 +26,7 @@ def one(name):
             return name, 'PATCH-DOES-NOT-APPLY', ''
         alarms = []
         for c in sorted(meta.get('checks_run', {})):
-            rc, o = sh('./check %s --tier quick' % c, cwd='/verif', env=dict(os.environ, VERIF_REPO=wt, VERIF_OUT=out))
+            rc, o = sh('./check %s --tier quick' % c, cwd='/verif', env=dict(os.environ, VERIF_REPO=wt, VERIF_OUT=out, VERIF_PROCS=os.environ.get('VERIF_PROCS', '4')))
             nv = [l for l in o.splitlines() if l.startswith('VIOLATION') or l.startswith('MACHINERY')]
             if rc != 0 or nv:
                 lines = o.splitlines()
@@ -45,7 +45,7 @@ def one(name):
 def main():
     args = [a for a in sys.argv[1:] if not a.startswith('-j')]
     j = [int(a[2:]) for a in sys.argv[1:] if a.startswith('-j')]
-    names = sorted(n for n in os.listdir('/verif/refactors') if not args or any(n.startswith(a) for a in args))
+    names = sorted(n for n in os.listdir('/verif/refactors') if os.path.isdir(os.path.join('/verif/refactors', n)) and (not args or any(n.startswith(a) for a in args)))
     bad = 0
     with ThreadPoolExecutor(max_workers=(j[0] if j else 4)) as ex:
         for name, verdict, res in ex.map(one, names):
